@@ -6,9 +6,17 @@
                                   [parent_stack] and [_create_parents]
      Node._add_from (no pred.) -> [copy_t] / [copy_f]
      Tree.filter / Tree.copy(predicate=) / Tree.filtered,
-     Node.filter / Node.copy(predicate=) / Node.filtered -> wrappers at the end.
-   [call_predicate] normalises returned and raised signals to one value: the
-   predicate is a function from node identities to [verdict].
+     Node.filter / Node.copy(predicate=) / Node.filtered -> [api_filter] / [api_filtered] /
+                                  [api_copy] (optional predicate: ValueError or plain copy),
+                                  branch starts through [upd_at] (in place) and the first
+                                  allocation index of [add_filtered] (copies)
+     nutree.common.call_predicate -> [raw] (what the predicate does: returns / raises),
+                                  [call_predicate], and the two chains of tests
+                                  [classify_ip] / [classify_cp]
+     the calls of the predicate  -> [scan_calls] with the stopped flag of each loop
+                                  ([ip_calls] / [af_calls])
+   The scans themselves take the predicate as a function from node identities to
+   [verdict] (the classified canonical result).
 
    Specification side (independent of the two mirrors):
      [F_t]/[F_f]  the filter spec as a structural recursion with an explicit
